@@ -1,0 +1,16 @@
+//go:build verif
+
+package amm
+
+import sdkmath "cosmossdk.io/math"
+
+// VerifUndistributed, when set by a verification harness, is told how much of
+// the amount handed to DistributeOrderAmountToOrders could not be placed on
+// the given orders (their remaining capacity was smaller).
+var VerifUndistributed func(remaining sdkmath.Int)
+
+func verifNoteUndistributed(remaining sdkmath.Int) {
+	if VerifUndistributed != nil && remaining.IsPositive() {
+		VerifUndistributed(remaining)
+	}
+}
